@@ -63,6 +63,11 @@ def r1_reject_purity(ctx):
             writes = [show(e[1]) for e in o.events if e[0] == 'write']
             nomatch = [c for c in o.conds if c[0][0] == 'discr' and c[0][1][0] == 'call' and (c[0][1][1].endswith('::find') or finder_summary(ctx.facts, c[0][1][1]))
                        and (c[1] == 0 or (isinstance(c[1], tuple) and c[1][0] == 'not' and 1 in c[1][1]))]
+            if not nomatch:
+                # first-match search written as a loop of the entry point: rejecting = the loop ran out of candidates
+                lp = inline_search(ctx.facts, outs, ENUM if 'algebraic' in m else GEN)
+                if lp and any(o is x for x in lp['exhausted']):
+                    nomatch = [c for c in o.conds if c[0][0] == 'discr' and c[0][1][0] == 'call' and c[0][1][1].endswith('::next') and c[1] == 0]
             ctx.ob(rule, name, 'reject path: nothing applied, nothing recorded', not muts and not writes and bool(nomatch),
                    found={'mutators': muts, 'writes': writes, 'guard': [show_cond(c)[:100] for c in nomatch]}, expected='only generation before Err(InvalidMove)',
                    why='a rejected input must leave position, counters and history exactly as they were')
@@ -147,6 +152,47 @@ def searched_list_is(find_event, list_call):
     return False
 
 
+def inline_search(facts, outs, list_fn):
+    """A first-match search written as a `for` loop of the entry point itself (`for m in list.iter() { if pred(m) { play m; return } }
+    Err(InvalidMove)`).  Returns None when the paths do not have that shape, else {'head', 'hit': [paths leaving the loop on a match],
+    'miss': [back-edge paths], 'exhausted': [paths after the iterator ran out], 'list_call': the generating call}.  Required: the loop
+    walks the list produced by the one call of `list_fn` on the path; an iteration that does not leave the loop performs no board /
+    history mutation and writes nothing (so the first match decides); paths leaving from inside the loop passed the predicate."""
+    res = {'hit': [], 'miss': [], 'exhausted': [], 'head': None, 'list_call': None}
+    for o in outs:
+        if o.kind == 'abort':
+            continue
+        gen = [e for e in o.events if e[0] == 'call' and e[1] == list_fn]
+        hs = [e for e in o.events if e[0] == 'loop_head' and not isinstance(e[2], tuple)]
+        if len(gen) != 1 or len(hs) != 1:
+            return None
+        lc = ('call', list_fn, gen[0][2], gen[0][3])
+        srcs = [sv for h_, sv, _ in iteration_sources(o) if h_ == hs[0][2]]
+        if len(srcs) != 1 or not any(s_ == lc for s_ in subterms(srcs[0])) or o.events.index(gen[0]) > o.events.index(hs[0]):
+            return None
+        if res['head'] not in (None, hs[0][2]):
+            return None
+        res['head'], res['list_call'] = hs[0][2], lc
+        inside = o.conds[hs[0][4]:]
+        nxt = [c for c in inside if c[0][0] == 'discr' and c[0][1][0] == 'call' and c[0][1][1].endswith('::next')]
+        if len(nxt) != 1 or o.conds[:hs[0][4]]:
+            return None
+        after = o.events[o.events.index(hs[0]) + 1:]
+        if nxt[0][1] == 0:
+            if o.kind != 'return' or len(inside) != 1:
+                return None
+            res['exhausted'].append(o)
+        elif o.kind == 'backedge':
+            if any(e[0] == 'write' or (e[0] == 'call' and (e[1] in (AP, SAVE) or (e[1].startswith(BOARD + '::') and method(e[1]) in BOARD_MUTATORS))) for e in after):
+                return None
+            res['miss'].append((o, [c for c in inside if c is not nxt[0]]))
+        elif o.kind == 'return':
+            res['hit'].append((o, [c for c in inside if c is not nxt[0]]))
+        else:
+            return None
+    return res if res['hit'] and res['miss'] and res['exhausted'] else None
+
+
 def r3_selection(ctx):
     rule = 'C14.R3-selection'
     facts = ctx.facts
@@ -204,6 +250,17 @@ def r3_selection(ctx):
                     searched_list_is(fnd[0], ('call', ENUM, en[0][2], en[0][3]))
             oks.append(ok1)
     ok = bool(oks) and all(oks)        # every accepting path: a remembered list (of another moment, possibly another side to move) is not the list of now
+    loop = inline_search(facts, outs, ENUM) if not ok else None
+    if loop:
+        # the search is a loop of the entry point itself: the pair played is the element the loop stands at when its label matched
+        en = loop['list_call']
+        ok = en[2][0] == ('ref', ('fld', ('der', ('p', 1)), 'board')) and 'turn' in show(en[2][1])
+        for o, cs in loop['hit']:
+            ap = [e for e in o.events if e[0] == 'call' and e[1] == AP]
+            el = strip(ap[0][2][0]) if ap else ('unk',)
+            ok = ok and len(ap) == 1 and el[0] == 'fld' and el[2] == '0' and is_iteration_element(el[1])
+            if is_ok_result(o.value):
+                ok = ok and strip(dict(o.value[4])['0']) == el
     ctx.ob(rule, name, 'plays the first (move, label) pair of the side to move whose label equals the input', ok, expected='enumerate(..).iter().find(|m| m.1 == input).0')
     pred_ok, found = False, None
     fc = find_closures(outs)
@@ -220,6 +277,20 @@ def r3_selection(ctx):
                     a, b = b, a
                 pred_ok = a[0] == 'fld' and a[2] == '1' and strip(a[1]) == ('p', 2) and b[0] == 'fld' and b[2] == 'upvar0' and \
                     len(snaps) >= 1 and show(snaps[0]) == 'arg2'
+    if loop and not fc:
+        def label_atom(c):
+            a, v = c
+            if a[0] == 'call' and a[1] in STR_EQ and len(a[2]) == 2 and (is_true(v) or is_false(v)):
+                x, y = str_strip(a[2][0]), str_strip(a[2][1])
+                if y[0] == 'fld' and y[2] == '1':
+                    x, y = y, x
+                if x[0] == 'fld' and x[2] == '1' and is_iteration_element(x[1]) and y == ('p', 2):
+                    return is_true(v)
+            return None
+        hits = [[label_atom(c) for c in cs if not (c[0][0] == 'discr' and c[0][1][0] == 'call' and c[0][1][1] == AP)] for o, cs in loop['hit']]
+        misses = [[label_atom(c) for c in cs] for o, cs in loop['miss']]
+        found = {'form': 'loop', 'leaves the loop when': hits, 'goes on when': misses}
+        pred_ok = all(h == [True] for h in hits) and all(m == [False] for m in misses)
     ctx.ob(rule, name, 'predicate: label == typed string', pred_ok, found=found, expected='m.1 == algebraic (exact, case-sensitive string equality)',
            why='labels are unique only up to exact equality: `bxc3` (pawn) and `Bxc3` (bishop) differ by case alone')
     v = facts.consts.get('chess::move_generator::PAWN_PROMOTIONS')
